@@ -500,5 +500,25 @@ m("c20-global-last-block-gas", "C20", "x/feemarket/keeper/abci.go",
   "EndBlock", "empty blocks reuse the last figure kept in a package-level variable: zero after a restart, non-zero on a node that kept running",
   extra=[("// BeginBlock updates base fee\n", "var lastBlockGas uint64\n\n// BeginBlock updates base fee\n")])
 
+# ---------------- added with the rules of session 3 ----------------
+m("c17-machine-word-delta", "C17", "x/feemarket/keeper/eip1559.go",
+  "\t\tgasUsedDelta := new(big.Int).SetUint64(parentGasUsed - parentGasTarget)\n\t\tx := new(big.Int).Mul(parentBaseFee, gasUsedDelta)",
+  "\t\tx := new(big.Int).SetUint64(parentBaseFee.Uint64() * (parentGasUsed - parentGasTarget))",
+  "arbitrary-precision", "base fee × gas delta on machine words: wraps for fees the chain can reach")
+m("c09-merge-folds-into-last", "C09", "x/vesting/types/schedule.go",
+  "\temit := func(nextTime int64, amount sdk.Coins) {\n\t\tperiod := sdkvesting.Period{\n\t\t\tLength: nextTime - endTime,",
+  "\temit := func(nextTime int64, amount sdk.Coins) {\n\t\tif n := len(periods); n > 0 && amount.Len() == 1 {\n\t\t\tperiods[n-1].Amount = periods[n-1].Amount.Add(amount...)\n\t\t\treturn\n\t\t}\n\t\tperiod := sdkvesting.Period{\n\t\t\tLength: nextTime - endTime,",
+  "appends-on-every-path", "single-denomination events are folded into the previously emitted period whatever its time")
+m("c12-total-memo", "C12", "x/ucdao/keeper/total_balance.go",
+  "func (k BaseKeeper) setTotalBalanceOfCoin(ctx sdk.Context, coin sdk.Coin) {\n",
+  "var totalsMemo = map[string]sdk.Coin{}\n\nfunc (k BaseKeeper) setTotalBalanceOfCoin(ctx sdk.Context, coin sdk.Coin) {\n\ttotalsMemo[coin.Denom] = coin\n",
+  "RM", "decoded total memoised in a package-level map: survives a reverted message")
+m("c02w-query-claims-rewards", "C02", "precompiles/distribution/query.go",
+  "\tres, err := querier.DelegationTotalRewards(ctx, req)\n\tif err != nil {\n\t\treturn nil, err\n\t}\n",
+  "\tres, err := querier.DelegationTotalRewards(ctx, req)\n\tif err != nil {\n\t\treturn nil, err\n\t}\n\tif len(res.Total) > 0 {\n\t\t_ = anteutils.ClaimSufficientStakingRewards(ctx, p.stakingKeeper, p.distributionKeeper, sdk.MustAccAddressFromBech32(req.DelegatorAddress), sdk.NewCoin(\"aISLM\", sdk.NewInt(1)))\n\t}\n",
+  "W1@", "a view function auto-claims rewards through a helper outside the keeper packages: invisible to the name-based effect filter, found by the whole-program rule",
+  extra=[("import (\n", "import (\n\tanteutils \"github.com/haqq-network/haqq/app/ante/utils\"\n")])
+M[-1]["tier"] = "whole"
+
 json.dump(M, open('/verif/mutants.json', 'w'), indent=1)
 print(len(M), "mutants written")
